@@ -49,14 +49,14 @@ Theorem C06_sound_thm :
   forall E dl ar md ds,
     env_ok E = true ->
     defs_f E dl ar md (classes E) = Some ds ->
-  forall n t v j m m' s k,
-    ty_ok m' E t = true ->
-    enc_ok n E t v j = true ->
-    schema_f E dl ar m t = Some s ->
+  forall n cur base t v j m m' s k,
+    ty_ok m' E cur base t = true ->
+    enc_ok n E cur base t v j = true ->
+    schema_f E dl ar cur m t = Some s ->
     2 * n + 1 <= k ->
     jvalid pm ds k s j = true.
 Proof.
-  intros pm Hpm E dl ar md ds Eok Hd n t v j m m' s k Hok He Hs Hk.
+  intros pm Hpm E dl ar md ds Eok Hd n cur base t v j m m' s k Hok He Hs Hk.
   eapply (sound_all pm Hpm E dl ar ds Eok); eauto.
   intros _ d Hin. exists md.
   unfold env_ok in Eok. apply andb_true_iff in Eok. destruct Eok as [Eok _]. apply andb_true_iff in Eok. destruct Eok as [Hn _].
@@ -103,27 +103,27 @@ Qed.
 Definition pm_any (p x: string) : bool := true.
 Definition dl2020 := mkD "#/$defs".
 
-Definition E_flag := mkEnv [] [] [mkE "F" [JInt 1; JInt 2] true].
+Definition E_flag := mkEnv [] [] [] [mkE "F" [JInt 1; JInt 2] true].
 Theorem flag_refuted :
-  enc_ok 5 E_flag (TEnum "F") (VFlag 3) (JInt 3) = true /\
-  exists s, schema_f E_flag dl2020 false 5 (TEnum "F") = Some s /\ jvalid pm_any [] 50 s (JInt 3) = false.
+  enc_ok 5 E_flag false false (TEnum "F") (VFlag 3) (JInt 3) = true /\
+  exists s, schema_f E_flag dl2020 false false 5 (TEnum "F") = Some s /\ jvalid pm_any [] 50 s (JInt 3) = false.
 Proof. split; [vm_compute; reflexivity|]. eexists. split; [vm_compute; reflexivity | vm_compute; reflexivity]. Qed.
 
-Definition E0 := mkEnv [] [] [].
+Definition E0 := mkEnv [] [] [] [].
 Theorem intkey_refuted :
-  enc_ok 5 E0 (TDict TInt TStr) (VDict [(VInt 1, VStr "a")]) (JObj [("1", JStr "a")]) = true /\
-  exists s, schema_f E0 dl2020 false 5 (TDict TInt TStr) = Some s /\ jvalid pm_any [] 50 s (JObj [("1", JStr "a")]) = false.
+  enc_ok 5 E0 false false (TDict TInt TStr) (VDict [(VInt 1, VStr "a")]) (JObj [("1", JStr "a")]) = true /\
+  exists s, schema_f E0 dl2020 false false 5 (TDict TInt TStr) = Some s /\ jvalid pm_any [] 50 s (JObj [("1", JStr "a")]) = false.
 Proof. split; [vm_compute; reflexivity|]. eexists. split; [vm_compute; reflexivity | vm_compute; reflexivity]. Qed.
 
 Definition E_same := mkEnv
-  [mkC "P1" "P" [mkF "v" "v" TInt false true]; mkC "P2" "P" [mkF "v" "v" TStr false true];
-   mkC "HP" "HP" [mkF "a" "a" (TData "P1") false true; mkF "b" "b" (TData "P2") false true]] [] [].
+  [mkC "P1" "P" [mkF "v" "v" TInt false true None] false false; mkC "P2" "P" [mkF "v" "v" TStr false true None] false false;
+   mkC "HP" "HP" [mkF "a" "a" (TData "P1") false true None; mkF "b" "b" (TData "P2") false true None] false false] [] [] [].
 Definition doc_same := JObj [("a", JObj [("v", JInt 1)]); ("b", JObj [("v", JStr "s")])].
 Theorem shared_defs_refuted :
-  enc_ok 9 E_same (TData "HP") (VObj [("a", VObj [("v", VInt 1)]); ("b", VObj [("v", VStr "s")])]) doc_same = true /\
-  ty_ok 9 E_same (TData "HP") = true /\
-  (exists s, schema_f E_same dl2020 false 9 (TData "HP") = Some s /\ jvalid pm_any [] 50 s doc_same = true) /\
-  exists s ds, schema_f E_same dl2020 true 9 (TData "HP") = Some s /\ defs_f E_same dl2020 true 9 (classes E_same) = Some ds /\
+  enc_ok 9 E_same false false (TData "HP") (VObj [("a", VObj [("v", VInt 1)]); ("b", VObj [("v", VStr "s")])]) doc_same = true /\
+  ty_ok 9 E_same false false (TData "HP") = true /\
+  (exists s, schema_f E_same dl2020 false false 9 (TData "HP") = Some s /\ jvalid pm_any [] 50 s doc_same = true) /\
+  exists s ds, schema_f E_same dl2020 true false 9 (TData "HP") = Some s /\ defs_f E_same dl2020 true 9 (classes E_same) = Some ds /\
                jvalid pm_any ds 50 s doc_same = false.
 Proof.
   split; [vm_compute; reflexivity|]. split; [vm_compute; reflexivity|]. split.
@@ -133,30 +133,73 @@ Qed.
 
 Definition t_setu := TSet (TUnion [TStr; TLeaf "date"]).
 Theorem set_collision_refuted :
-  all2 (enc_ok 5 E0 (TUnion [TStr; TLeaf "date"])) [VStr "2020-01-01"; VLeaf "2020-01-01"] [JStr "2020-01-01"; JStr "2020-01-01"] = true /\
-  exists s, schema_f E0 dl2020 false 5 t_setu = Some s /\
+  all2 (enc_ok 5 E0 false false (TUnion [TStr; TLeaf "date"])) [VStr "2020-01-01"; VLeaf "2020-01-01"] [JStr "2020-01-01"; JStr "2020-01-01"] = true /\
+  exists s, schema_f E0 dl2020 false false 5 t_setu = Some s /\
             jvalid pm_any [] 50 s (JArr [JStr "2020-01-01"; JStr "2020-01-01"]) = false.
 Proof. split; [vm_compute; reflexivity|]. eexists. split; [vm_compute; reflexivity | vm_compute; reflexivity]. Qed.
 
-Definition E_init := mkEnv [mkC "B" "B" [mkF "n" "n" TInt true false]] [] [].
+Definition E_init := mkEnv [mkC "B" "B" [mkF "n" "n" TInt true false None] false false] [] [] [].
 Theorem init_false_refuted :
-  enc_ok 5 E_init (TData "B") (VObj [("n", VInt 5)]) (JObj [("n", JInt 5)]) = true /\
-  exists s, schema_f E_init dl2020 false 5 (TData "B") = Some s /\ jvalid pm_any [] 50 s (JObj [("n", JInt 5)]) = false.
+  enc_ok 5 E_init false false (TData "B") (VObj [("n", VInt 5)]) (JObj [("n", JInt 5)]) = true /\
+  exists s, schema_f E_init dl2020 false false 5 (TData "B") = Some s /\ jvalid pm_any [] 50 s (JObj [("n", JInt 5)]) = false.
 Proof. split; [vm_compute; reflexivity|]. eexists. split; [vm_compute; reflexivity | vm_compute; reflexivity]. Qed.
 
 (* non-vacuity witness for the soundness theorem: a dataclass with an alias, a default,
    a nested class, an optional, a list and a str-keyed dict *)
 Definition E_nv := mkEnv
-  [mkC "A" "A" [mkF "x" "xx" TInt false true; mkF "y" "y" (TUnion [TStr; TNone]) true true];
-   mkC "H" "H" [mkF "a" "a" (TData "A") false true; mkF "l" "l" (TList (TLeaf "date")) true true;
-                mkF "d" "d" (TDict TStr (TTuple [(false, TInt); (false, TBool)])) true true]] [] [].
+  [mkC "A" "A" [mkF "x" "xx" TInt false true None; mkF "y" "y" (TUnion [TStr; TNone]) true true None] false false;
+   mkC "H" "H" [mkF "a" "a" (TData "A") false true None; mkF "l" "l" (TList false (TLeaf "date")) true true None;
+                mkF "d" "d" (TDict TStr (TTuple [(false, TInt); (false, TBool)])) true true None] false false] [] [] [].
 Definition v_nv := VObj [("a", VObj [("x", VInt 1); ("y", VNone)]); ("l", VList [VLeaf "2020-01-01"]);
                          ("d", VDict [(VStr "k", VList [VInt 2; VBool true])])].
 Definition j_nv := JObj [("a", JObj [("xx", JInt 1); ("y", JNull)]); ("l", JArr [JStr "2020-01-01"]);
                          ("d", JObj [("k", JArr [JInt 2; JBool true])])].
-Lemma nonvacuous : env_ok E_nv = true /\ ty_ok 9 E_nv (TData "H") = true /\ enc_ok 9 E_nv (TData "H") v_nv j_nv = true /\
-  (exists s, schema_f E_nv dl2020 true 9 (TData "H") = Some s) /\ (exists ds, defs_f E_nv dl2020 true 9 (classes E_nv) = Some ds).
+Lemma nonvacuous : env_ok E_nv = true /\ ty_ok 9 E_nv false false (TData "H") = true /\ enc_ok 9 E_nv false false (TData "H") v_nv j_nv = true /\
+  (exists s, schema_f E_nv dl2020 true false 9 (TData "H") = Some s) /\ (exists ds, defs_f E_nv dl2020 true 9 (classes E_nv) = Some ds).
 Proof.
   split; [vm_compute; reflexivity|]. split; [vm_compute; reflexivity|]. split; [vm_compute; reflexivity|].
   split; eexists; vm_compute; reflexivity.
+Qed.
+
+(* ---- named tuples as dicts / field override / omit_none ---- *)
+Definition NT_P := mkC "P" "P" [mkF "a" "a" TInt false true None; mkF "b" "b" (TUnion [TStr; TNone]) true true None] false false.
+Definition NT_Q := mkC "Q" "Q" [mkF "l" "l" (TList false (TNamed "P")) false true None] false false.
+
+(* KF schema-nt-override-in-containers: q: Q = field(metadata={"serialize": "as_dict"}), Q.l: List[P]:
+   the serializer forgets the override inside the list ([[1, null]]), the schema does not *)
+Definition E_ovc := mkEnv [mkC "A" "A" [mkF "q" "q" (TNamed "Q") false true (Some true)] false false] [] [NT_P; NT_Q] [].
+Definition v_ovc := VObj [("q", VList [VList [VList [VInt 1; VNone]]])].
+Definition j_ovc := JObj [("q", JObj [("l", JArr [JArr [JInt 1; JNull]])])].
+Theorem nt_override_container_refuted :
+  enc_ok 9 E_ovc false false (TData "A") v_ovc j_ovc = true /\
+  exists s, schema_f E_ovc dl2020 false false 9 (TData "A") = Some s /\ jvalid pm_any [] 50 s j_ovc = false.
+Proof. split; [vm_compute; reflexivity|]. eexists. split; [vm_compute; reflexivity | vm_compute; reflexivity]. Qed.
+
+(* KF schema-omit-none-required: x: Optional[int] without default in a class with omit_none *)
+Definition E_omit := mkEnv [mkC "A" "A" [mkF "x" "x" (TUnion [TInt; TNone]) false true None] false true] [] [] [].
+Theorem omit_none_required_refuted :
+  enc_ok 5 E_omit false false (TData "A") (VObj [("x", VNone)]) (JObj []) = true /\
+  exists s, schema_f E_omit dl2020 false false 5 (TData "A") = Some s /\ jvalid pm_any [] 50 s (JObj []) = false.
+Proof. split; [vm_compute; reflexivity|]. eexists. split; [vm_compute; reflexivity | vm_compute; reflexivity]. Qed.
+
+(* non-vacuity with the new constructs: class S with namedtuple_as_dict and omit_none:
+     p: P (dict, by the class option)          o: P = field(serialize="as_list") (list, by the override)
+     t: Tuple[P, ...] (dicts)                  a: List[Optional[int]] (nested None is kept)
+     y: Optional[str] = None (dropped when None) *)
+Definition E_nv2 := mkEnv
+  [mkC "S" "S" [mkF "p" "p" (TNamed "P") false true None; mkF "o" "o" (TNamed "P") false true (Some false);
+                mkF "t" "t" (TList true (TNamed "P")) false true None;
+                mkF "a" "a" (TList false (TUnion [TInt; TNone])) false true None;
+                mkF "y" "y" (TUnion [TStr; TNone]) true true None] true true] [] [NT_P] [].
+Definition v_nv2 := VObj [("p", VList [VInt 1; VNone]); ("o", VList [VInt 2; VStr "s"]); ("t", VList [VList [VInt 3; VNone]]);
+                          ("a", VList [VInt 1; VNone]); ("y", VNone)].
+Definition j_nv2 := JObj [("p", JObj [("a", JInt 1); ("b", JNull)]); ("o", JArr [JInt 2; JStr "s"]);
+                          ("t", JArr [JObj [("a", JInt 3); ("b", JNull)]]); ("a", JArr [JInt 1; JNull])].
+Lemma nonvacuous2 : env_ok E_nv2 = true /\ ty_ok 9 E_nv2 false false (TData "S") = true /\
+  enc_ok 9 E_nv2 false false (TData "S") v_nv2 j_nv2 = true /\
+  (exists s ds, schema_f E_nv2 dl2020 true false 9 (TData "S") = Some s /\ defs_f E_nv2 dl2020 true 9 (classes E_nv2) = Some ds /\
+                jvalid pm_any ds 50 s j_nv2 = true).
+Proof.
+  split; [vm_compute; reflexivity|]. split; [vm_compute; reflexivity|]. split; [vm_compute; reflexivity|].
+  eexists. eexists. split; [vm_compute; reflexivity | split; [vm_compute; reflexivity | vm_compute; reflexivity]].
 Qed.
